@@ -27,7 +27,8 @@ RULE = (
     'distinct case JSON.'
 )
 ASSUMPTIONS = [
-    "a float operand that comes back as an equal Decimal (or vice versa) is NOT counted as altered (same value)",
+    "the snapshot holds the number types of the magnitude and of the unit factor as well: a float operand that comes back as "
+    "a Decimal one IS counted as altered (it was not until the round-8 report showed what follows from it: f**0.5 raises)",
     "values compared exactly (NaN equals NaN); units compared as the rendered string; abse compared exactly",
 ]
 NT_FLOOR = 0.3
